@@ -38,7 +38,7 @@ func (p *Program) EnumPaths(f *FuncSrc, conf *GuardConfig, limit int) ([]PathRes
 		conf = defaultGuards
 	}
 	g := p.CFG(f)
-	base := &guardState{f: f, conf: conf, info: f.Pkg.TypesInfo, g: g, paths: map[string][]string{}, caseOf: map[*ast.CaseClause]ast.Stmt{}, single: map[*types.Var]ast.Expr{}}
+	base := &guardState{prog: p, f: f, conf: conf, info: f.Pkg.TypesInfo, g: g, paths: map[string][]string{}, caseOf: map[*ast.CaseClause]ast.Stmt{}, single: map[*types.Var]ast.Expr{}}
 	base.prepare()
 	base.single = map[*types.Var]ast.Expr{} // symbolic env replaces the single-assignment shortcut
 	var results []PathResult
